@@ -33,8 +33,9 @@ EXPLANATION = (
     'R4 every creation call is followed on all normal paths by append_to_log of a destination, DirMaker records exactly the '
     'directories that did not exist and emits them deepest-first, the uninstall reader strips exactly the terminator the writer '
     'appends, skips exactly the comment prefix, reads the path the writer writes and only rmdir/unlinks the decoded name; '
-    'R5 set_mode/sanitize_permissions/is_executable equal the reference permission tables on all worlds and the per-kind loops '
-    'pass the item\'s install_mode and the install umask. '
+    'R5 set_mode equals the reference permission table on all worlds; sanitize_permissions\' mode expression (row assignments composed '
+    'symbolically) has the shape (0o777 if is_executable(path, no-follow) else 0o666) & ~umask and is_executable\'s mask folds to '
+    'S_IXUSR|S_IXGRP|S_IXOTH; the per-kind loops pass the item\'s install_mode and the install umask; os.umask(install_umask) unless preserve. '
     'Does NOT decide that InstallData matches the build definition, idempotence of a second install, symlink-escapes through '
     'pre-existing links, `..` components of install paths, or what custom install scripts write.')
 ASSUMPTIONS = [
@@ -42,8 +43,10 @@ ASSUMPTIONS = [
     'install paths in InstallData contain no `..` component and the prefix is absolute',
     'str.strip()/rstrip() without argument remove exactly Unicode whitespace; iterating a text file yields lines ending in one \\n',
 ]
-TECHNIQUE = ('who-may-call over a classified effect table + guard-aware CFG reachability (K2/K1), must-rootedness over all '
-             'bindings with interprocedural parameter demands (K3), decision tables on all worlds (K6), strip-set algebra writer/reader (K5)')
+TECHNIQUE = ('who-may-call over a classified effect table + CFG reachability under three-valued guard atoms (K2/K1); must-rootedness over all '
+             'bindings (def-use) with interprocedural parameter demands (K3); decision tables by path enumeration, compared with references on all '
+             'worlds of their atoms and by symbolic shape of outcomes/effects after copy propagation, constants folded (K6/K5); strip-set algebra '
+             'of the reader\'s str-method chain against the writer\'s folded terminator (K11-like); no repository expression is evaluated on sample values')
 
 
 # =============================================================================================
@@ -1579,63 +1582,83 @@ def _r5_bits(ctx: Ctx, mod: Module) -> None:
     ctx.require(len(call.args) >= 2 and norm(call.args[0]) == 'ARG1' and fs is not None and norm(fs) == 'False',
                 'sanitize_permissions: chmod of the path itself, not following symlinks', mod, 'sanitize_permissions', sp,
                 f'sanitize_permissions calls `{short(call)}`: it must chmod the given path with follow_symlinks=False')
-    # value of the mode argument: replay the row's assignments, one world of (executable, umask) at a time
-    mismatch = None
-    nworlds = 0
-    for is_exec in (True, False):
-        for umask in (0, 0o022, 0o027, 0o077, 0o002, 0o777, 0o111):
-            env: T.Dict[str, T.Any] = {'ARG2': umask}
-            seen_exec: T.List[str] = []
-
-            def exec_call(c: ast.Call, is_exec: bool = is_exec, seen_exec: T.List[str] = seen_exec) -> bool:
-                seen_exec.append(norm(c))
-                return is_exec
-            for e in r.effects:
-                if ' := ' in e and not e.startswith('call '):
-                    t, v = e.split(' := ', 1)
-                    env[t] = U.fold_int(ast.parse(v, mode='eval').body, env, {'is_executable': exec_call})
-                elif '= ' in e and not e.startswith('call '):
-                    t, op, v = _aug(e)
-                    cur = env.get(t)
-                    if cur is None:
-                        raise Undecided(f'sanitize_permissions: {e}')
-                    val = U.fold_int(ast.parse(v, mode='eval').body, env, {'is_executable': exec_call})
-                    env[t] = {'&': cur & val, '|': cur | val, '^': cur ^ val}[op]
-            got = U.fold_int(call.args[1], env, {'is_executable': exec_call})
-            want = (0o777 if is_exec else 0o666) & ~umask
-            nworlds += 1
-            if seen_exec and not all(s.startswith('is_executable(ARG1') for s in seen_exec):
-                raise Undecided(f'sanitize_permissions: executability probed on {seen_exec}')
-            if got != want and mismatch is None:
-                mismatch = f'for an {"executable" if is_exec else "ordinary"} file and umask {umask:04o} the new mode is {got:04o}; documented: {want:04o} ((0o777 if any x bit else 0o666) & ~umask)'
-    ctx.require(mismatch is None, f'sanitize_permissions: mode == (0o777 if executable else 0o666) & ~umask on {nworlds} worlds', mod, 'sanitize_permissions',
-                r.path.events[-1].node if r.path.events else sp, mismatch or '')
-    # ---- is_executable ----
+    # value of the mode argument, symbolically: the row's assignments composed into one expression over the parameters,
+    # compared by operator / operand structure with  (0o777 if is_executable(path) else 0o666) & ~umask
+    expr = U.compose_assignments(r.effects, call.args[1])
+    shape = _perm_shape(expr)
+    where = r.path.events[-1].node if r.path.events else sp
+    if shape is None:
+        raise Undecided(f'sanitize_permissions: mode expression `{short(expr)}` is not of the form (A if is_executable(path) else B) & ~umask')
+    probe, x_bits, plain_bits, mask, complemented = shape
+    fsl = kwarg(probe, 'follow_symlinks') if len(probe.args) < 2 else probe.args[1]
+    ctx.require(bool(probe.args) and norm(probe.args[0]) == 'ARG1' and fsl is not None and norm(fsl) == 'False',
+                'sanitize_permissions: executability is probed on the path itself, not following symlinks', mod, 'sanitize_permissions', where,
+                f'the default bits are chosen by `{short(probe)}`; it must test the installed path itself (follow_symlinks=False)')
+    ctx.require((x_bits, plain_bits) == (0o777, 0o666), 'sanitize_permissions: default bits 0o777 for executables else 0o666 (constants folded)', mod, 'sanitize_permissions', where,
+                f'default permission bits fold to {x_bits:#o} for an executable and {plain_bits:#o} otherwise; documented: 0o777 / 0o666, '
+                f'restricted only by the install umask')
+    ctx.require(complemented and mask == 'ARG2', 'sanitize_permissions: the bits are and-ed with the complement of the umask parameter', mod, 'sanitize_permissions', where,
+                f'the default bits are combined with `{"~" if complemented else ""}{mask}`; they must be masked by `~umask` (bits set in the umask are cleared)')
+    # ---- is_executable: bool(stat(path).st_mode & (S_IXUSR | S_IXGRP | S_IXOTH)) ----
     ie = mod.func('is_executable')
-    rets = [s for s in ie.body if isinstance(s, ast.Return)]
-    if len(rets) != 1 or rets[0].value is None:
-        raise Undecided('is_executable: shape')
-    pn = U.params_of(ie, drop_self=False)
-    mm = None
-    for st_mode in (0o100644, 0o100755, 0o100100, 0o100010, 0o100001, 0o104644, 0o100600, 0o100711, 0o100666):
-        probed: T.List[str] = []
+    tab3 = tables.extract(ie, name='is_executable')
+    if len(tab3.rows) != 1 or tab3.rows[0].conds or tab3.rows[0].outcome[0] != 'return':
+        raise Undecided(f'is_executable: expected one unconditional return, table {tab3.dump()}')
+    ret = ast.parse(tab3.rows[0].outcome[1], mode='eval').body
+    sh = _xbit_shape(ret)
+    if sh is None:
+        raise Undecided(f'is_executable: `{short(ret)}` is not of the form bool(os.stat(path).st_mode & MASK)')
+    statcall, xmask = sh
+    ctx.require(bool(statcall.args) and norm(statcall.args[0]) == 'ARG1', 'is_executable: stats its own path argument', mod, 'is_executable', ie,
+                f'is_executable stats `{short(statcall.args[0]) if statcall.args else "?"}`, not its path parameter')
+    missing = [n for n, bit in (('owner', 0o100), ('group', 0o010), ('other', 0o001)) if not xmask & bit]
+    ctx.require(xmask == 0o111, 'is_executable: mask folds to S_IXUSR|S_IXGRP|S_IXOTH (any execute bit)', mod, 'is_executable', ie,
+                f'the execute-bit mask folds to {xmask:#o}' + (f': the {"/".join(missing)} execute bit is not tested, so a file executable only for {missing[0]} '
+                                                               f'is installed with 0o666-based permissions' if missing else ': it tests bits that are not execute bits'))
 
-        def stat(c: ast.Call, st_mode: int = st_mode, probed: T.List[str] = probed) -> int:
-            probed.append(norm(c.args[0]) if c.args else '?')
-            return st_mode
-        got = U.fold_int(rets[0].value, {}, {'os.stat.st_mode': stat, 'os.lstat.st_mode': stat})
-        if probed != [pn[0]]:
-            raise Undecided(f'is_executable: stats {probed}')
-        if bool(got) != bool(st_mode & 0o111) and mm is None:
-            mm = f'for st_mode {st_mode:o} is_executable answers {bool(got)}; "any execute bit set" is {bool(st_mode & 0o111)}'
-    ctx.require(mm is None, 'is_executable: true iff any of the three execute bits is set (9 modes)', mod, 'is_executable', rets[0], mm or '')
 
+def _perm_shape(e: ast.AST) -> T.Optional[T.Tuple[ast.Call, int, int, str, bool]]:
+    """(probe call, bits if probe true, bits if false, mask operand text, mask complemented?) of `(A if P else B) & [~]M`."""
+    if not (isinstance(e, ast.BinOp) and isinstance(e.op, ast.BitAnd)):
+        return None
+    for sel, msk in ((e.left, e.right), (e.right, e.left)):
+        if not isinstance(sel, ast.IfExp):
+            continue
+        test, yes, no = sel.test, sel.body, sel.orelse
+        if isinstance(test, ast.UnaryOp) and isinstance(test.op, ast.Not):
+            test, yes, no = test.operand, no, yes
+        a, b = U.const_int(yes), U.const_int(no)
+        if not (isinstance(test, ast.Call) and norm(test.func) == 'is_executable') or a is None or b is None:
+            return None
+        comp = isinstance(msk, ast.UnaryOp) and isinstance(msk.op, ast.Invert)
+        m = msk.operand if comp else msk   # type: ignore[union-attr]
+        if attr_chain(m) is None:
+            return None
+        return test, a, b, norm(m), comp
+    return None
+
+
+def _xbit_shape(e: ast.AST) -> T.Optional[T.Tuple[ast.Call, int]]:
+    """(stat call, folded mask) of  bool(S.st_mode & M)  |  (S.st_mode & M) != 0  |  S.st_mode & M."""
+    if isinstance(e, ast.Call) and norm(e.func) == 'bool' and len(e.args) == 1 and not e.keywords:
+        e = e.args[0]
+    elif isinstance(e, ast.Compare) and len(e.ops) == 1 and isinstance(e.ops[0], ast.NotEq) and U.const_int(e.comparators[0]) == 0:
+        e = e.left
+    if not (isinstance(e, ast.BinOp) and isinstance(e.op, ast.BitAnd)):
+        return None
+    for val, msk in ((e.left, e.right), (e.right, e.left)):
+        mk = U.const_int(msk)
+        if mk is None:
+            continue
+        if isinstance(val, ast.Attribute) and val.attr == 'st_mode' and isinstance(val.value, ast.Call) and norm(val.value.func) in ('os.stat', 'os.lstat'):
+            return val.value, mk
+    return None
 
 
 def r5(ctx: RuleCtx) -> None:
     ex = Rec()
     _r5_bits(ex, U.synthetic_module('example/minstall.py', R5_EXAMPLE))
-    if sorted(f for f, _, _ in ex.v) != ['is_executable', 'sanitize_permissions'] or len(ex.oks) != 2:
+    if sorted(f for f, _, _ in ex.v) != ['is_executable', 'sanitize_permissions'] or len(ex.oks) != 5:
         raise AnalysisError(f'C11.R5 built-in example not recognised: {ex.v} {ex.oks}')
     ctx.ok('built-in example: default bits 0755/0644 and an owner-only execute test are flagged; preserve / no-follow are clean', nontrivial=False)
     m = _model(ctx)
@@ -1750,14 +1773,6 @@ def r5(ctx: RuleCtx) -> None:
     early = [cfg.nodes[i] for i in sorted(r_int & set(en))]
     ctx.require(not early, 'do_install: with an integer install_umask os.umask(install_umask) precedes every installer', mod, 'Installer.do_install', ucall,
                 f'{", ".join(en[early[0].id]) if early else ""} can run before os.umask({arg}): new directories would be created with the caller\'s umask', ucall)
-
-
-def _aug(e: str) -> T.Tuple[str, str, str]:
-    for op in ('&', '|', '^'):
-        if f' {op}= ' in e:
-            t, v = e.split(f' {op}= ', 1)
-            return t, op, v
-    raise Undecided(f'augmented assignment not understood: {e}')
 
 
 def _all_none_fields(a: Atom) -> T.Optional[T.List[str]]:
